@@ -299,7 +299,7 @@ func main() {
 				j := jobs[i]
 				data, _ := streams.Wire(j.st.frames)
 				for _, d := range append([]drivers.Driver{drivers.ReaderLoop(4096), drivers.ReaderLoop(65537)}, ds...) {
-					if strings.HasPrefix(d.Name, "Reader/") && d.Name != "Reader/buf512" && d.Name != "Reader/buf4096" && d.Name != "Reader/buf65537" && !strings.HasPrefix(d.Name, "Reader/discard") {
+					if strings.HasPrefix(d.Name, "Reader/") && d.Name != "Reader/buf512" && d.Name != "Reader/buf4096" && d.Name != "Reader/buf65537" && d.Name != "Reader/io.Copy" && !strings.HasPrefix(d.Name, "Reader/discard") {
 						continue // the drivers' iteration guard is sized for small payloads
 					}
 					for _, ch := range []int{0, 4093, 65536} {
@@ -350,6 +350,54 @@ func main() {
 									return f
 								}
 								return nil
+							})
+						}
+					}
+				}
+			})
+			t.Outcome("delivered-as-model")
+		})
+
+		// Text messages of 1..40 bytes with one multi-byte character at every offset (and a second
+		// one right behind it or at the end): the read helpers and the UTF-8-checking reader
+		// deliver them unchanged, under every chunking - a valid message is never refused.
+		r.Part("E5b-text-with-a-character-at-every-offset", func(t *explore.T) {
+			chars := []string{"\u00e9", "\u20ac", "\U0001F600"}
+			var texts []string
+			for L := 1; L <= 40; L++ {
+				for i := 0; i < L; i++ {
+					for ci, ch := range chars {
+						if i+len(ch) > L {
+							continue
+						}
+						b := []byte(strings.Repeat("abcdefghij", 5)[:L])
+						copy(b[i:], ch)
+						texts = append(texts, string(b))
+						if ci == 1 && i+2*len(ch) <= L {
+							copy(b[i+len(ch):], ch)
+							texts = append(texts, string(b))
+						}
+					}
+				}
+			}
+			checked := []drivers.Driver{drivers.ReadMessageLoop(), drivers.ReadSideMessageLoop(), drivers.ReadDataLoop("Generic"), drivers.ReadDataLoop("Text"), drivers.NextReaderLoop(), drivers.ReaderLoop(7), drivers.ReaderLoop(512), drivers.ReaderCopy()}
+			t.Par(len(texts), func(ti int) {
+				txt := texts[ti]
+				for _, side := range []streams.Side{streams.Server, streams.Client} {
+					mk := func(i int, op byte, fin bool, p string) streams.Frame {
+						return streams.Frame{H: refmodel.Hdr{Fin: fin, Op: op, Masked: side == streams.Server, Mask: streams.Masks[(i+len(p))%3]}, Payload: []byte(p)}
+					}
+					st := stream{side, []streams.Frame{mk(0, 1, true, txt), mk(1, 1, false, txt[:len(txt)/2]), mk(2, 0, true, txt[len(txt)/2:])}}
+					data, _ := streams.Wire(st.frames)
+					for _, d := range checked {
+						for _, ch := range []int{0, 1, 8, 9, 16} {
+							d, ch := d, ch
+							t.Do(func() string { return fmt.Sprintf("%s text %q whole and in two fragments, driver=%s chunk=%d", side, txt, d.Name, ch) }, func() *explore.Fail {
+								src := env.NewSrc(data)
+								src.Policy = env.FixedChunk(ch)
+								var res drivers.Result
+								d.Run(src, side, drivers.Cfg{CheckUTF8: true}, &res)
+								return judge(d, st, &res, src)
 							})
 						}
 					}
